@@ -63,8 +63,11 @@ def run_imf(emd, x, case, sig):
 
 
 def run_sift(emd, x, case, thresh, sig):
+    # records longer than 100 samples are decomposed to 8 components only (PCHIP sifts of long noisy records run to 100+
+    # components of up to 1000 iterations each); the relations hold for capped runs just the same
+    cap = None if x.size <= 100 else 8
     try:
-        return np.asarray(emd.sift.sift(x.copy(), sift_thresh=thresh, imf_opts=dict(case['opts']),
+        return np.asarray(emd.sift.sift(x.copy(), sift_thresh=thresh, max_imfs=cap, imf_opts=dict(case['opts']),
                                         envelope_opts={'interp_method': case['interp']},
                                         extrema_opts={'pad_width': case['pad']}))
     except emd.support.EMDSiftCovergeError:
